@@ -15,7 +15,7 @@ import random
 import sys
 import time
 
-from common import (REPO, MachineryError, classify, finish, parse_printed, run_tlc, seed, subdir, tier,
+from common import (REPO, pmap, MachineryError, classify, finish, parse_printed, run_tlc, seed, subdir, tier,
                     tla_value, validate_traces, write_replay)
 import fe_server as fs
 
@@ -235,10 +235,8 @@ def main(argv_tier=None, replay_path=None):
         n = rnd.randint(D + 1, 12)
         hists.append(tuple(rnd.choice(SYMS) for _ in range(n)))
 
-    traces = []
-    for k, h in enumerate(hists):
-        ev = replay(fx, list(h), k)
-        traces.append({"tid": "h%d" % k, "ev": ev, "history": list(h)})
+    evs = pmap(lambda a: replay(fx, list(a[1]), a[0]), list(enumerate(hists)))
+    traces = [{"tid": "h%d" % k, "ev": ev, "history": list(h)} for (k, h), ev in zip(enumerate(hists), evs)]
     verdicts, agg = validate_traces("Trace_ServerSM", [{"tid": t["tid"], "ev": t["ev"]} for t in traces],
                                     consts="CONSTANTS Cfgs = {1,2}\nIdxs = {1,2}\n")
     rej = []
